@@ -879,6 +879,181 @@ func TestVerifC18Historic(t *testing.T) {
 	vs.Check(t, 1, func(rt *rapid.T) { c18Scenario(rt, st) })
 }
 
+// c18HotScenario: "hot node" histories. 1..3 contracts have one hot slot that is
+// rewritten by EVERY transition (their storage-root node, the hot leaf and the
+// account-trie nodes above the contract get one mutation record per history) and
+// cold slots / cold neighbour accounts that are rewritten rarely, so that a sibling
+// below the same ancestors changes many records after a given state. Trienode
+// history is always on (retained completely), the full-value checkpoint rate is
+// drawn from the whole legal range, and EVERY retained root is read back through
+// HistoricReader and HistoricNodeReader (no sampling of roots).
+func c18HotScenario(rt *rapid.T, st *vs.S) {
+	c := st.Case()
+	e := &c18Env{rt: rt, c: c, st: st, w: newPdbWorld(), kv: memorydb.New()}
+	e.maxLayers = rapid.SampledFrom([]int{1, 2, 4}).Draw(rt, "maxDiffLayers")
+	e.cfg = Config{
+		StateHistory:        0,
+		TrienodeHistory:     0,
+		FullValueCheckpoint: rapid.SampledFrom([]uint32{2, 3, 4, 8, 8, 16}).Draw(rt, "fullValueCheckpoint"),
+		WriteBufferSize:     rapid.SampledFrom([]int{0, 1024, 64 * 1024}).Draw(rt, "writeBuffer"),
+		NoAsyncFlush:        true,
+		NoAsyncGeneration:   true,
+		TrieCleanSize:       rapid.SampledFrom([]int{0, 64 * 1024}).Draw(rt, "cleanCache"),
+	}
+	e.cfg.StateCleanSize = e.cfg.TrieCleanSize
+	maxDiffLayers = e.maxLayers
+	dir, err := os.MkdirTemp(c18TempRoot, "c18hot")
+	if err != nil {
+		rt.Fatalf("VERIF-HARNESS-BUG: mkdir: %v", err)
+	}
+	e.dir = dir
+	defer os.RemoveAll(dir)
+	e.line = []common.Hash{types.EmptyRootHash}
+	e.open(true, true)
+	defer func() { e.db.Close() }()
+
+	type hotContract struct{ a, slot, val int }
+	var hot []*hotContract
+	isHot := map[int]bool{}
+	for _, a := range rapid.SliceOfNDistinct(rapid.IntRange(0, pdbNumAddrs-1), 1, 3, rapid.ID[int]).Draw(rt, "hotContracts") {
+		hot = append(hot, &hotContract{a: a, slot: rapid.IntRange(0, pdbNumSlots-1).Draw(rt, "hotSlot")})
+		isHot[a] = true
+	}
+	coldEvery := rapid.IntRange(3, 25).Draw(rt, "coldEvery")
+	n := rapid.IntRange(40, 120).Draw(rt, "transitions")
+	if vs.Thorough() {
+		n = rapid.IntRange(40, 250).Draw(rt, "transitionsThorough")
+	}
+	rollbackAt := -1
+	if rapid.IntRange(0, 3).Draw(rt, "withRollback") == 0 {
+		rollbackAt = rapid.IntRange(10, n-1).Draw(rt, "rollbackAt")
+	}
+	coldWrites := 0
+	for i := 0; i < n; i++ {
+		var ops []pdbOp
+		if len(e.line) == 1 {
+			// first transition: the contracts with their hot slot and 2..5 cold slots, neighbours
+			for a := 0; a < pdbNumAddrs; a++ {
+				if isHot[a] || rapid.Bool().Draw(rt, "neighbour") {
+					ops = append(ops, pdbOp{pdbOpCreate, a, 0, rapid.IntRange(0, len(pdbValues)-1).Draw(rt, "val")})
+				}
+			}
+			for _, h := range hot {
+				for s, m := 0, rapid.IntRange(2, pdbNumSlots-1).Draw(rt, "coldSlots"); s < pdbNumSlots && m > 0; s++ {
+					if s != h.slot {
+						ops = append(ops, pdbOp{pdbOpSetSlot, h.a, s, rapid.IntRange(0, len(pdbValues)-1).Draw(rt, "val")})
+						m--
+					}
+				}
+			}
+		}
+		for _, h := range hot {
+			h.val = (h.val + 1 + rapid.IntRange(0, len(pdbValues)-2).Draw(rt, "hotStep")) % len(pdbValues) // always a different value
+			ops = append(ops, pdbOp{pdbOpSetSlot, h.a, h.slot, h.val})
+			if rapid.IntRange(1, coldEvery).Draw(rt, "cold") == 1 {
+				s := (h.slot + rapid.IntRange(1, pdbNumSlots-1).Draw(rt, "coldSlot")) % pdbNumSlots
+				kind := pdbOpSetSlot
+				if rapid.IntRange(0, 5).Draw(rt, "coldDel") == 0 {
+					kind = pdbOpDelSlot
+				}
+				ops = append(ops, pdbOp{kind, h.a, s, rapid.IntRange(0, len(pdbValues)-1).Draw(rt, "val")})
+				coldWrites++
+			}
+		}
+		if rapid.IntRange(1, coldEvery).Draw(rt, "extra") == 1 {
+			// an arbitrary op on the rest of the world; the hot contracts stay alive
+			for _, o := range pdbDrawOps(rt, e.w.State(e.head()), 1) {
+				if o.Kind == pdbOpDestruct && isHot[o.A%pdbNumAddrs] {
+					continue
+				}
+				ops = append(ops, o)
+			}
+		}
+		head := e.head()
+		tr := e.w.Transition(head, e.ballast(ops, false), e.w.NextSeq(), rapid.Bool().Draw(rt, "rawKeys"))
+		id := len(e.line)
+		if err := e.db.Update(tr.Root, tr.Parent, uint64(id), tr.Nodes, tr.States); err != nil {
+			e.fail("Update #%d (%x<-%x) failed: %v", id, tr.Root, tr.Parent, err)
+		}
+		e.line = append(e.line, tr.Root)
+		e.trace = append(e.trace, fmt.Sprintf("#%d update %x %v raw=%v -> disk id %d", id, tr.Root[:4], ops, tr.Raw, e.db.tree.bottom().stateID()))
+		if i == rollbackAt {
+			e.rollback()
+		}
+	}
+	if rapid.Bool().Draw(rt, "commit") {
+		e.commit()
+	}
+	// every retained root, no sampling
+	disk := int(e.db.tree.bottom().stateID())
+	if e.db.tree.bottom().rootHash() != e.line[disk] {
+		e.fail("disk layer root %x is not the canonical root of id %d", e.db.tree.bottom().rootHash(), disk)
+	}
+	for j := 0; j < disk; j++ {
+		what := fmt.Sprintf("hot history, id %d of disk id %d", j, disk)
+		nr, err := e.db.HistoricNodeReader(e.line[j])
+		if err != nil {
+			e.fail("%s: HistoricNodeReader failed: %v", what, err)
+		}
+		e.verifyNodes(nr, e.line[j], what)
+		hr, err := e.db.HistoricReader(e.line[j])
+		if err != nil {
+			e.fail("%s: HistoricReader failed: %v", what, err)
+		}
+		before := e.reads
+		e.verifyState(hr, e.line[j], what)
+		if disk-j >= 2 {
+			e.farReads += e.reads - before
+		}
+		if e.rolledBack {
+			e.afterRollback += e.reads - before
+		}
+	}
+	e.refusedState(e.line[disk], "disk layer root")
+	e.refusedNodes(e.line[disk], "disk layer root")
+	for k, r := range e.dead {
+		if k >= len(e.dead)-4 {
+			e.refusedState(r, "root of a rolled-back fork")
+			e.refusedNodes(r, "root of a rolled-back fork")
+		}
+	}
+	for i := 0; i < e.excluded; i++ {
+		st.Excluded()
+	}
+	c.Class("hot-node-history")
+	c.Classf("hot:checkpoint=%d", e.cfg.FullValueCheckpoint)
+	c.Classf("hot:contracts=%d", len(hot))
+	switch {
+	case disk < 60:
+		c.Class("hot:retained-roots<60")
+	case disk < 100:
+		c.Class("hot:retained-roots=60..99")
+	default:
+		c.Class("hot:retained-roots>=100")
+	}
+	if coldWrites > 0 {
+		c.Class("hot:has-cold-sibling-writes")
+	}
+	if e.rolledBack {
+		c.Class("has-rollback+fork")
+	}
+	c.Class("reads:trie-nodes")
+	nt := e.farReads > 0 && e.nodeReads > 0
+	c.NonTrivial(nt, fmt.Sprintf("hot|%s|%x|%d|%d|%d", e.config(), e.head(), e.reads, e.nodeReads, len(e.dead)))
+	c.Sample(nt, func() any {
+		return map[string]any{"config": e.config(), "hot_contracts": len(hot), "transitions": len(e.line) - 1, "retained_roots_read": disk, "cold_sibling_writes": coldWrites,
+			"rolled_back_roots": len(e.dead), "state_reads": e.reads, "node_reads": e.nodeReads, "refused_roots": e.refused}
+	})
+}
+
+// TestVerifC18HistoricHot: hot-node histories (see c18HotScenario), a small share of the budget.
+func TestVerifC18HistoricHot(t *testing.T) {
+	st := vs.New("C18", t)
+	c18SetupTemp(t)
+	defer func(old int) { maxDiffLayers = old }(maxDiffLayers)
+	vs.Check(t, 0.08, func(rt *rapid.T) { c18HotScenario(rt, st) })
+}
+
 // TestVerifC18Repro replays the minimal scenario of the known finding written up in
 // notes/C18.md. Skipped unless VERIF_C18_REPRO is set (documentation that runs, not
 // part of the check): it FAILS while the behaviour is present.
